@@ -221,6 +221,9 @@ def finish(prop, mod, tier, seed, obligations, errors, jobs, t0):
         "exhaustive": False,
         "known_findings_printed": sorted(printed),
         "undecided_samples": [{k: o.get(k) for k in ("id", "reason", "path")} for o in undecided[:10]],
+        # obligations that produced NO verdict on this run and are not counted as discharged: code outside engine LV's Python
+        # subset (the bounded enumeration of the same function stands in), Lean not available (the lemma stays trusted)
+        "no_verdict": [{k: o.get(k) for k in ("id", "status", "reason")} for o in obligations if o["status"] in ("not-translated", "not-run")],
     }
     kf_notes = [f"EXCLUDED-BY-KNOWN-FINDING {kid}: the obligations this recorded defect violates are not proved and not counted (see known_findings.json)" for kid in sorted(printed)]
     ev = {"property_id": prop, "tier": tier, "seed": int(seed), "level": level, "coverage": cov,
